@@ -44,8 +44,8 @@ Proof. exact send_discipline. Qed.
    named in the reward memo, else the consumer bound to the channel's client; only if the wrapped transfer
    succeeded and the receiver is the rewards pool), by exactly the received amount; nothing else of the
    reward state moves; a failed acknowledgement changes nothing at all. *)
-Theorem C16_credit_sender : forall ch memo d amt ack_ok to_pool f m,
-  let m' := receive ch memo d amt ack_ok to_pool f m in
+Theorem C16_credit_sender : forall ch memo db d amt ack_ok to_pool f m,
+  let m' := receive ch memo db d amt ack_ok to_pool f m in
   (forall c' d', get (c', d') (alloc m') =
      get (c', d') (alloc m) +
      match credited_consumer ch memo ack_ok to_pool f with
@@ -56,7 +56,7 @@ Theorem C16_credit_sender : forall ch memo d amt ack_ok to_pool f m,
   outst m' = outst m /\ comm m' = comm m /\ cpool m' = cpool m /\
   (ack_ok = false -> m' = m) /\
   (forall a d', get (a, d') (bank m') =
-     get (a, d') (bank m) + if ack_ok && (a =? (if to_pool then POOL else OTHER)) && (d' =? d) then amt else 0).
+     get (a, d') (bank m) + if ack_ok && (a =? (if to_pool then POOL else OTHER)) && (d' =? db) then amt else 0).
 Proof. exact credit_sender. Qed.
 
 (* a transfer built by consumer c's own module carries c's id in the memo: it credits c, whatever the channel *)
@@ -67,9 +67,46 @@ Proof. exact credited_own_memo. Qed.
 (* relaying the oldest in-flight transfer of chain k is that receive, with the chain's memo and channel *)
 Theorem C16_relay_is_receive : forall s k c d a q, nth_error (chains s) (Z.to_nat k) = Some c -> c_inflight c = (d, a) :: q ->
   step s (Relay k true) =
-  mkS (mkP (receive (c_chan c) (c_memo c) (pdenom c d) a true (c_to_pool c) (pf (prov s)) (pm (prov s))) (pf (prov s)))
+  mkS (mkP (receive (c_chan c) (c_memo c) (bank_denom (pf (prov s)) (c_chan c) (wire c d)) (cred_denom (pf (prov s)) (c_chan c) (wire c d))
+                    a true (c_to_pool c) (pf (prov s)) (pm (prov s))) (pf (prov s)))
       (upd_nth (Z.to_nat k) cdelivered (chains s)).
 Proof. exact relay_step. Qed.
+
+(* ---- the denom of the credit is the denom of the coins.  For every shape of packet denom (segments: provider-native
+   coin returned by the consumer, voucher that still has a trace after the consumer's hop is stripped, token whose
+   source is the sender or a third chain) GetProviderDenom (string prefix + ParseDenomTrace) computes the key under
+   which ibc-go's transfer application (ExtractDenomFromPath, Denom.HasPrefix, Trace[1:] / prepended hop, IBCDenom)
+   unescrows or mints.  Hypotheses: non-empty denom with a non-empty base (ICS-20 validation), and no client-id
+   segment (see the refutation below).  sha256 is abstracted by the per-case table dtab; only equality of keys is used. *)
+Theorem C16_credit_denom_key : forall sp sc dp dc l,
+  is_chan sc = true -> is_chan dc = true -> l <> [] -> no_client_ids l ->
+  snd (denom_trace is_chan_or_client l) <> [] ->
+  provider_denom_key sp sc dp dc l = ics20_key sp sc dp dc l.
+Proof. exact credit_denom_key. Qed.
+
+Theorem C16_credit_denom_is_bank_denom : forall f ch l,
+  l <> [] -> no_client_ids l -> snd (denom_trace is_chan_or_client l) <> [] -> 0 <= ch < 990 ->
+  cred_denom f ch l = bank_denom f ch l.
+Proof. exact credit_denom_is_bank_denom. Qed.
+
+(* hence a successful receive into the pool raises the credit and the pool balance under one and the same denom *)
+Theorem C16_receive_credit_matches_pool : forall f m ch memo l amt c,
+  l <> [] -> no_client_ids l -> snd (denom_trace is_chan_or_client l) <> [] -> 0 <= ch < 990 ->
+  credited_consumer ch memo true true f = Some c ->
+  let d := cred_denom f ch l in
+  let m' := pm (pstep (mkP m f) (PReceive ch memo l amt true true)) in
+  get (c, d) (alloc m') = get (c, d) (alloc m) + dec_of_int amt /\
+  get (POOL, d) (bank m') = get (POOL, d) (bank m) + amt.
+Proof. exact receive_credit_matches_pool. Qed.
+
+(* REFUTED without the client-id hypothesis: ibc-go v10 also parses (port, "07-tendermint-N") as a hop, the copy
+   of the v8 helpers in x/ccv/types/denom_helpers.go does not: transfer/channel-1/transfer/07-tendermint-3/uusdc
+   is credited under the raw string "transfer/07-tendermint-3/uusdc" while the coins arrive as ibc/HASH(...) *)
+Definition C16_credit_denom_full : Prop := forall sp sc dp dc l,
+  is_chan sc = true -> is_chan dc = true -> l <> [] -> snd (denom_trace is_chan_or_client l) <> [] ->
+  provider_denom_key sp sc dp dc l = ics20_key sp sc dp dc l.
+Theorem C16_credit_denom_client_id_refuted : ~ C16_credit_denom_full.
+Proof. exact credit_denom_full_refuted. Qed.
 
 (* ---- never more paid out than credited: per consumer and denom, after any history,
    credited = still credited + paid to validators + paid to community pool + dust + forfeited, all >= 0
